@@ -52,11 +52,38 @@ func (h *Ctl) relChan(tok int) chan struct{} {
 	return ch
 }
 
+func (h *Ctl) freshRel(tok int) chan struct{} {
+	h.mu.Lock()
+	defer h.mu.Unlock()
+	ch := make(chan struct{})
+	h.release[tok] = ch
+	return ch
+}
+
 // Release lets the Block call with this token return.
 func (h *Ctl) Release(tok int) {
 	ch := h.relChan(tok)
 	defer func() { recover() }()
 	close(ch)
+}
+
+// ReleaseAgain releases a second execution with the same token (a retried call): every Block that is
+// or will be waiting on tok returns.
+func (h *Ctl) ReleaseAgain(tok int) {
+	h.mu.Lock()
+	ch, ok := h.release[tok]
+	if ok {
+		select {
+		case <-ch:
+		default:
+			close(ch)
+		}
+	} else {
+		ch = make(chan struct{})
+		close(ch)
+		h.release[tok] = ch
+	}
+	h.mu.Unlock()
 }
 
 func (h *Ctl) Execs(tok int) int {
@@ -116,8 +143,13 @@ func (h *SH) Count(ctx context.Context, tok int) (int, error) {
 // Block waits until released by the harness or until its context is cancelled.
 func (h *SH) Block(ctx context.Context, tok int) (int, error) {
 	h.C.enter(ctx, "Block", tok)
+	rel := h.C.relChan(tok)
+	if h.C.Execs(tok) > 1 {
+		// a later execution of the same token (retried call) waits for its own release
+		rel = h.C.freshRel(tok)
+	}
 	select {
-	case <-h.C.relChan(tok):
+	case <-rel:
 		h.RT.Log("h.exit", "tok", tok, "cause", "released")
 		return tok, nil
 	case <-ctx.Done():
